@@ -64,11 +64,15 @@ func (w *webhookExecutorEtag) adjustResponse(
 	responseBody []byte,
 	response *http.Response) ([]byte, error) {
 	cacheKey := w.getKeyFromObject(webhookRequest.GetRootObject())
-	if request.Header.Get(headerIfNoneMatch) != "" && (response.StatusCode == http.StatusNotModified || response.StatusCode == http.StatusPreconditionFailed) {
+	if sentETag := request.Header.Get(headerIfNoneMatch); sentETag != "" && (response.StatusCode == http.StatusNotModified || response.StatusCode == http.StatusPreconditionFailed) {
 		logging.Logger.Info("retrieving body from cache", "cacheKey", cacheKey)
 		cacheEntry, cacheEntryExists := w.etagCache.Get(cacheKey)
 		if !cacheEntryExists {
 			return nil, fmt.Errorf("cannot find cached response for cache key: %s", cacheKey)
+		}
+		if cacheEntry.Etag != sentETag {
+			// Another call replaced the entry while this request was in flight.
+			return nil, fmt.Errorf("cached response for cache key: %s was replaced (sent ETag %q, cached ETag %q)", cacheKey, sentETag, cacheEntry.Etag)
 		}
 		return cacheEntry.Response, nil
 	}
